@@ -16,6 +16,7 @@ import WrglModel.Driver.C07
 import WrglModel.Driver.C12
 import WrglModel.Driver.C14
 import WrglModel.Driver.C13
+import WrglModel.Driver.C16
 open Lean Wrgl.Drv
 
 def dispatch (prop op : String) (input impl : Json) : Except String Json :=
@@ -36,6 +37,7 @@ def dispatch (prop op : String) (input impl : Json) : Except String Json :=
   | "C12" => handleC12 op input impl
   | "C14" => handleC14 op input impl
   | "C13" => handleC13 op input impl
+  | "C16" => handleC16 op input impl
   | "C18" => handleC18 op input impl
   | _ => .error s!"unknown property {prop}"
 
